@@ -291,7 +291,7 @@ def alphabet(N, tier):
     return labels
 
 
-OPS = ["not", "le0", "div0", "gt0_poke"]
+OPS = ["not", "le0", "div0", "gt0_poke", "measure"]
 
 
 def apply_op(T, S, name):
@@ -304,6 +304,9 @@ def apply_op(T, S, name):
         _ = T <= 0
     elif name == "div0":
         _ = S / 0
+    elif name == "measure":
+        # scalar summaries (anything memoised from them must not survive the next write)
+        S.norm(), T.norm(), S.nnz, T.nnz, S.innerprod(S), T.innerprod(T)
     elif name == "gt0_poke":
         C = S > 0
         if C.nnz:
@@ -682,6 +685,18 @@ def check_reads(ctx, hist, T, S, R):
             rd(lambda: X.nnz, float(np.count_nonzero(a)), "derived_nnz")
             rd(lambda: X == 0, (a == 0).astype(float), "derived_eq0")
             rd(lambda: X.innerprod(X), float(np.sum(a * a)), "derived_innerprod")
+        # the norm is a rounded quantity: compared through its square, within 1e-12 relative
+        ctx.tick()
+        sq = float(np.sum(R.a * R.a))
+        try:
+            nv = float(X.norm())
+            if not abs(nv * nv - sq) <= 1e-12 * (1.0 + sq):
+                info = dict(hist, check="hist", read=["derived_norm", None], nlists=0, adv_split=False)
+                ctx.fail(nm + ".__getitem__", "wrong_value", f"norm()**2 = {nv * nv!r}, sum of squares = {sq!r}",
+                         variant="derived_norm", case=info)
+        except Exception as e:  # noqa: BLE001
+            info = dict(hist, check="hist", read=["derived_norm", None], nlists=0, adv_split=False)
+            ctx.fail(nm + ".__getitem__", exc_symptom(e), short_tb(e), variant="derived_norm", case=info)
         for key, want in region_wants:
             nl = sum(1 for it in key if isinstance(it, list) and it[0] == "l")
             stepped = any(isinstance(it, list) and it[0] == "s" and len(it) > 3 for it in key)
